@@ -282,7 +282,7 @@ func registerHarnessAPI(e *Exec) {
 		},
 		"vReach": func(e *Exec, st *State, fn *ssa.Function, args []Value) []Outcome {
 			id := e.argString(args[0])
-			e.h.stat("reach:" + id).Reached++
+			e.h.stat("reach:"+id).Reached++
 			return ret(st)
 		},
 		"vUnroll": func(e *Exec, st *State, fn *ssa.Function, args []Value) []Outcome {
